@@ -206,113 +206,176 @@ def r4(ctx):
     ctx.floor("C05.R4", 2)
 
 
+def run_query(f, kind, rows, include_empty, offset, limit, selector=False):
+    """QueryIterator::next evaluated (K6') repeatedly, with persistent iterator state, over an abstract table scan.
+    rows: dicts {key, ts, empty, kmatch, amatch} in scan order. Returns the list of items yielded until None."""
+    import re as _re
+    from . import feval as E
+    pos = {"i": 0}
+
+    def digit(sx):
+        m = _re.search(r"e(\d+)", sx)
+        return int(m.group(1)) if m else None
+
+    def oracle(k, name, payload, site):
+        if k == "eq":
+            a, b = str(name), str(payload)
+            if a.startswith("key(e") and b.startswith("key(e"):
+                return rows[digit(a)]["key"] == rows[digit(b)]["key"]
+            if ("hash" in a and "EMPTY" in b) or ("hash" in b and "EMPTY" in a):
+                i = digit(a + b)
+                return None if i is None else bool(rows[i]["empty"])
+            return None
+        if k == "cmp":
+            a, b = str(name), str(payload)
+            if a.startswith("timestamp(e") and b.startswith("timestamp(e"):
+                x, y = rows[digit(a)]["ts"], rows[digit(b)]["ts"]
+                return (x > y) - (x < y)
+            return None
+        if k != "call":
+            return None
+        t, args, it = payload
+        names = [it.tokname(a) for a in args]
+        if name == "next_filtered":
+            if names[0] != ("rrange" if kind == "AuthorKey" else "krange"):
+                raise E.Unsupported("next_filtered on %s" % names[0])
+            while pos["i"] < len(rows):
+                i = pos["i"]
+                pos["i"] += 1
+                if rows[i].get("err"):
+                    return E.Some(E.Err(E.Tok("storage-error")))
+                if kind == "AuthorKey":
+                    keyt = ("tuple", [E.Tok("ns"), E.Tok("author(e%d)" % i), E.Tok("rawkey(e%d)" % i)])
+                    val = ("tuple", [E.Tok("ts(e%d)" % i), E.Tok("nsig"), E.Tok("asig"), E.Tok("len(e%d)" % i), E.Tok("hash(e%d)" % i)])
+                    ok = it.apply(args[2], [keyt, val])
+                else:
+                    keyt = ("tuple", [E.Tok("ns"), E.Tok("rawkey(e%d)" % i), E.Tok("author(e%d)" % i)])
+                    ok = it.apply(args[2], [keyt])
+                okd = it.deref_val(ok)
+                if not E.is_int(okd):
+                    raise E.Unsupported("row filter undetermined (%s)" % E.describe(okd, f))
+                if okd[1]:
+                    return E.Some(E.Ok(E.Tok("e%d" % i)))
+            return E.NONE
+        if name == "matches" and names and names[0] in ("kf", "af"):
+            want = "rawkey(e" if names[0] == "kf" else "author(e"
+            if not names[1].startswith(want):
+                raise E.Unsupported("%s filter applied to %s, not to the row's own %s" % ("key" if names[0] == "kf" else "author", names[1], "key" if names[0] == "kf" else "author"))
+            return E.Int(1 if rows[digit(names[1])]["kmatch" if names[0] == "kf" else "amatch"] else 0)
+        if name == "from" and len(names) == 1 and names[0].startswith("author("):
+            return args[0]
+        if name == "as_bytes" and "EMPTY" in names[0]:
+            return E.Tok("EMPTY")
+        if name == "key" and names and _re.fullmatch(r"e\d+", names[0]):
+            return E.Tok("key(%s)" % names[0])
+        if name == "timestamp" and names and _re.fullmatch(r"e\d+", names[0]):
+            return E.Tok("timestamp(%s)" % names[0])
+        return None
+    Q = E.struct(f, "store::Query", kind=E.Tok("kind"), filter_author=E.Tok("fa"), filter_key=E.Tok("fk"),
+                 limit=(E.Some(E.Int(limit)) if limit is not None else E.NONE), offset=E.Int(offset),
+                 include_empty=E.Int(1 if include_empty else 0), sort_direction=E.variant(f, "store::SortDirection", "Asc"))
+    if kind == "AuthorKey":
+        R = E.variant(f, "store::fs::query::QueryRange", "AuthorKey", range=E.Tok("rrange"), key_filter=E.Tok("kf"))
+    else:
+        sel = E.Some(E.struct(f, "store::util::LatestPerKeySelector", **{"0": E.NONE})) if selector else E.NONE
+        R = E.variant(f, "store::fs::query::QueryRange", "KeyAuthor", range=E.Tok("krange"), author_filter=E.Tok("af"), selector=sel)
+    heap = {"self": E.struct(f, "store::fs::query::QueryIterator", range=R, query=Q, offset=E.Int(0), count=E.Int(0))}
+    out = []
+    for _ in range(len(rows) + 3):
+        ret, heap, ev = E.run(f, QNEXT, [E.href("self")], heap, oracle)
+        d = E.describe(ret, f)
+        if d == "None":
+            break
+        out.append(d)
+    return out, pos["i"]
+
+
+def reference_query(kind, rows, include_empty, offset, limit, selector):
+    """what the query describes (from the property text): filter, latest entry per key (deletion markers take part in
+    the selection and are dropped afterwards unless requested), then the offset/limit window; a storage error is yielded in place"""
+    cand = []
+    for i, r in enumerate(rows):
+        if r.get("err"):
+            cand.append(("err", i))
+            break
+        if kind == "AuthorKey":
+            if r["kmatch"] and (include_empty or not r["empty"]):
+                cand.append(("ok", i))
+        elif r["amatch"]:
+            cand.append(("ok", i))
+    if kind != "AuthorKey":
+        if selector:
+            out = []
+            for st, i in cand:
+                if st == "err":
+                    out.append((st, i))
+                elif out and out[-1][0] == "ok" and rows[out[-1][1]]["key"] == rows[i]["key"]:
+                    if rows[i]["ts"] > rows[out[-1][1]]["ts"]:
+                        out[-1] = (st, i)
+                else:
+                    out.append((st, i))
+            cand = out
+        cand = [(st, i) for st, i in cand if st == "err" or include_empty or not rows[i]["empty"]]
+    res = []
+    skipped = 0
+    for st, i in cand:
+        if limit is not None and len(res) >= limit:
+            break
+        if st == "ok" and skipped < offset:
+            skipped += 1
+            continue
+        res.append("Some(Ok(e%d))" % i if st == "ok" else "Some(Err(storage-error))")
+        if st == "err":
+            break
+    return res
+
+
 def r5(ctx):
     f = ctx.facts
     b = f.body(QNEXT)
-    ctx.touch(b)
-    fam = f.family(b.path)
+    fam = f.scope(QNEXT, prefix="store::fs::query::")
     ctx.touch(*fam)
-    # (a) limit test precedes any fetch
-    cm = [c for c in comparisons(b) if not mir.is_noise(c["x"])]
-    lim = None
-    for c in cm:
-        fa = {".".join(mir.field_path(o)) for o in trace(b, c["a"], whole_only=True)}
-        sb_ = trace(b, c["b"], through_calls=False)
-        if "count" in fa and any(o.kind == "call" and o.data["f"].get("name") in ("limit", "branch") or True for o in sb_) and c["op"] in (">=", ">"):
-            lim = c
-    fetches = [bi for bi, t in b.calls() if t["f"].get("name") == "next_filtered"]
-    if lim is None or len(fetches) != 2:
-        ctx.bad("C05.R5", QNEXT, "limit-test.form", "limit comparison or the two fetch sites not found (%s, %d) (UNSUPPORTED-FORM)" % (lim is not None, len(fetches)), b.sp)
-    else:
-        from .common import truth_edges_final
-        es = truth_edges_final(b, lim["dest"]["l"], True)
-        ok = bool(es)
-        if ok:
-            region = b.reach_from_edges([e[1] for e in es])
-            ok = not any(x in region for x in fetches) and lim["op"] == ">="
-        ctx.check(ok, "C05.R5", QNEXT, "nothing-fetched-once-limit-reached", "on count >= limit the iterator returns None without touching the ranges", lim["loc"])
-    # (b) offset skipping only for Some(Ok(_))
-    offw = [(bi, s) for bi, si, s in b.statements() if s["k"] == "assign" and s["p"]["p"] and s["p"]["p"][-1][0] == "field" and s["p"]["p"][-1][2] == "offset"]
-    okb = False
-    if len(offw) == 1:
-        wb = offw[0][0]
-        # dominated by discr(next)==Some and discr(payload)==Ok edges
-        doms = []
+    from . import feval as E
 
-        def discr_doms(target_bb):
-            out = []
-            for bi, blk in enumerate(b.blocks):
-                tt = blk["t"]
-                if tt["k"] == "switch" and tt["d"][0] in ("copy", "move"):
-                    ds = b.defs().get(tt["d"][1]["l"], [])
-                    if len(ds) == 1 and ds[0][2] == "assign" and ds[0][3]["r"][0] == "discr":
-                        pl = ds[0][3]["r"][1]
-                        for v, tb in tt["v"]:
-                            if b.edge_dominates(bi, tb, target_bb):
-                                ty = b.locals[pl["l"]]["ty"]
-                                inner = [pr for pr in pl["p"] if pr[0] == "field"]
-                                out.append((ty.split("<")[0].split("::")[-1] if not inner else "payload", v))
-            return out
-        doms = discr_doms(wb)
-        if not doms:
-            # through a `matches!` temporary: the write is dominated by the true edge of a bool whose
-            # `true` assignments are dominated by the discriminant edges
-            for bi, blk in enumerate(b.blocks):
-                tt = blk["t"]
-                if tt["k"] == "switch" and tt["d"][0] in ("copy", "move") and b.locals[tt["d"][1]["l"]]["ty"] == "bool" and not tt["d"][1]["p"]:
-                    if not b.edge_dominates(bi, tt["o"], wb):
-                        continue
-                    m = tt["d"][1]["l"]
-                    # follow one copy
-                    srcs = [m]
-                    for d in b.defs().get(m, []):
-                        if d[2] == "assign" and d[3]["r"][0] == "use" and d[3]["r"][1][0] in ("copy", "move") and not d[3]["r"][1][1]["p"]:
-                            srcs.append(d[3]["r"][1][1]["l"])
-                    for src in srcs:
-                        trues = [d[0] for d in b.defs().get(src, []) if d[2] == "assign" and d[3]["r"][0] == "use" and d[3]["r"][1][0] == "const" and d[3]["r"][1][1].get("val") == 1]
-                        for tb in trues:
-                            doms += discr_doms(tb)
-        okb = ("Option", 1) in doms and ("payload", 0) in doms
-        ctx.check(okb, "C05.R5", QNEXT, "offset-skips-only-Some(Ok)", "offset += 1 is dominated by next == Some and payload == Ok (%s)" % doms, offw[0][1]["sp"])
-    else:
-        ctx.bad("C05.R5", QNEXT, "offset-skips-only-Some(Ok)", "expected one write to self.offset, found %d" % len(offw), b.sp)
-    # count incremented once per returned item
-    cw = [(bi, s) for bi, si, s in b.statements() if s["k"] == "assign" and s["p"]["p"] and s["p"]["p"][-1][0] == "field" and s["p"]["p"][-1][2] == "count"]
-    ctx.check(len(cw) == 1, "C05.R5", QNEXT, "count-incremented-at-one-site", "%d writes to self.count" % len(cw), b.sp)
-    # (c) include_empty on both paths
-    reads = {}
-    for body in fam:
-        for bi, si, s in body.statements():
-            if s["k"] != "assign":
-                continue
-            r = s["r"]
-            pl = r[1][1] if r[0] == "use" and r[1][0] in ("copy", "move") else (r[2] if r[0] == "ref" else None)
-            if pl and any(pr[0] == "field" and pr[2] == "include_empty" for pr in pl["p"]):
-                reads.setdefault(body.path, 0)
-                reads[body.path] += 1
-    total = sum(reads.values())
-    cap = [x for x in fam if x.path.endswith("next::{closure#0}") and any("include_empty" in n for n in x.upvars)]
-    ctx.check(total >= 2 and bool(cap), "C05.R5", QNEXT, "include_empty-honoured-on-both-paths",
-              "include_empty is read %d times (%s); the records-path filter closure captures it: %s" % (total, sorted(reads), bool(cap)), b.sp)
-    # on the key-ordered path the emptiness test is applied to the selector's OUTPUT: the value tested
-    # must have the selector's result among its origins (filtering before the selection would let an
-    # older non-empty entry of another author resurface behind a newer deletion marker)
-    from .common import lift_origins
-    ie = []
-    for body in fam:
-        for bi, t in body.calls():
-            if t["f"].get("name") == "is_empty" and callee_matches(t, r"sync::Record::is_empty$"):
-                ie.append((body, bi, t))
-    pu = [(bi, t) for bi, t in b.calls() if callee_matches(t, r"LatestPerKeySelector::push$")]
-    if len(ie) == 1 and len(pu) == 1:
-        body, bi, t = ie[0]
-        srcs = lift_origins(f, body, trace(body, t["a"][0]), b)
-        from_sel = any(o.kind == "call" and o.data is pu[0][1] for o in srcs)
-        ctx.check(from_sel, "C05.R5", QNEXT, "empty-filter-after-latest-per-key-selection",
-                  "the entry tested for emptiness derives from the selector's result" if from_sel else
-                  "the emptiness filter is applied before the latest-per-key selection: a newer deletion marker no longer hides older entries of other authors for that key", t["sp"])
-    else:
-        ctx.bad("C05.R5", QNEXT, "empty-filter-after-latest-per-key-selection", "expected one Record::is_empty test (in next() or a closure of it) and one selector push (found %d/%d) (UNSUPPORTED-FORM)" % (len(ie), len(pu)), b.sp)
+    def R(key, ts, empty=0, kmatch=1, amatch=1, err=0):
+        return dict(key=key, ts=ts, empty=empty, kmatch=kmatch, amatch=amatch, err=err)
+    tables_ = {
+        "mixed": [R("a", 1), R("a", 5, empty=1), R("b", 2, kmatch=0), R("c", 3, amatch=0), R("c", 1), R("d", 4, empty=1), R("e", 2)],
+        "tombstone-last": [R("a", 2), R("b", 1), R("b", 3, empty=1)],
+        "all-empty": [R("a", 1, empty=1), R("b", 1, empty=1)],
+        "error-midway": [R("a", 1), R("b", 1, err=1), R("c", 1)],
+        "empty-table": [],
+    }
+    n = 0
+    bad = []
+    unsupported = None
+    for tname, rows in tables_.items():
+        for kind, selector in (("AuthorKey", False), ("KeyAuthor", False), ("KeyAuthor", True)):
+            for include_empty in (0, 1):
+                for offset in (0, 1, 2, 3):
+                    for limit in (None, 0, 1, 2):
+                        if tname in ("empty-table", "all-empty", "error-midway") and (offset == 3 or limit == 0):
+                            continue
+                        if tname == "error-midway" and selector:
+                            continue
+                        want = reference_query(kind, rows, include_empty, offset, limit, selector)
+                        n += 1
+                        try:
+                            got, consumed = run_query(f, kind, rows, include_empty, offset, limit, selector)
+                        except E.Unsupported as e:
+                            got, consumed = ["UNSUPPORTED-FORM"], 0
+                            unsupported = str(e)
+                        if any("Err" in x for x in want):
+                            # what follows a storage error is not specified by the property: compare up to the error
+                            k = next((i for i, x in enumerate(got) if "Err" in x), len(got) - 1)
+                            got = got[:k + 1]
+                        if got != want:
+                            bad.append("%s/%s%s include_empty=%d offset=%d limit=%s: yields %s, the query describes %s" % (tname, kind, "+latest-per-key" if selector else "", include_empty, offset, limit, got, want))
+                        elif limit == 0 and consumed:
+                            bad.append("%s/%s limit=0 still reads %d rows" % (tname, kind, consumed))
+    ctx.check(not bad, "C05.R5", QNEXT, "query-window-table",
+              "QueryIterator::next evaluated on %d (table, index path, include_empty, offset, limit) cells; deviating: %s%s" % (n, bad[:4], (" (%s)" % unsupported) if unsupported else ""), b.sp)
+    ctx.check(n >= 230, "C05.R5", QNEXT, "query-window-table.cells", "%d cells" % n, b.sp)
     ve = f.body("store::fs::query::value_is_empty")
     ri = f.body("sync::Record::is_empty")
     ctx.touch(ve, ri)
@@ -346,17 +409,7 @@ def r5(ctx):
     AFn = _names(f, "store::AuthorFilter")
     rows = {_dec(p, "arg:self", AFn): P.short(p.ret) for p in P.explore(af)}
     ctx.check(rows == {"Any": "1", "Exact": "call:eq"}, "C05.R5", af.path, "filter-table", "%s" % rows, af.sp)
-    # the filters are applied to the row's own key / author
-    c0 = [x for x in fam if x.path.endswith("next::{closure#0}")]
-    c1 = [x for x in fam if x.path.endswith("next::{closure#1}")]
-    if c0 and c1:
-        m0 = [t for _, t in c0[0].calls() if callee_matches(t, r"store::KeyFilter::matches$")]
-        m1 = [t for _, t in c1[0].calls() if callee_matches(t, r"store::AuthorFilter::matches$")]
-        ok0 = len(m0) == 1 and any(mir.field_path(o)[-1:] == ("2",) for o in trace(c0[0], m0[0]["a"][1]))
-        ok1 = len(m1) == 1 and any("2" in mir.field_path(o) for o in leaves(c1[0], m1[0]["a"][1]))
-        ctx.check(ok0, "C05.R5", c0[0].path, "key-filter-on-row-key", "key_filter.matches(component 2 of the records id)", c0[0].sp)
-        ctx.check(ok1, "C05.R5", c1[0].path, "author-filter-on-row-author", "author_filter.matches(component 2 of the by-key id)", c1[0].sp)
-    ctx.floor("C05.R5", 9)
+    ctx.floor("C05.R5", 6)
 
 
 def r6(ctx):
